@@ -33,7 +33,11 @@ def run(chk):
     from . import executor_contracts as X
     X.batch_replay_consistency(chk, "C02")
     X.replay_items(chk, "C02")   # the batch rebuilt from records is classified with the SAME completion config as the first run
+    c20.strict_payload_decode(chk, "C02")   # the recorded result a replay deserializes is the text that was delivered ('' stays '')
+    from . import misc_contracts
+    misc_contracts.error_from_exception_contract(chk, "C02")   # the recorded error of a failing run is (str(e), class name): what every replay rebuilds the exception from
     from . import c15
-    c15.containers(chk, only=("list", "dict.str_keys"), prefix="C02")   # RT for containers incl. ownership: what a replay delivers is a fresh value, not an object another delivery can have mutated
+    c15.containers(chk, only=("list", "dict.str_keys"), prefix="C02")
+    c15.containers(chk, only=("batch_result",), prefix="C02")   # a replayed map / parallel result equals the first one item by item (falsy results included)   # RT for containers incl. ownership: what a replay delivers is a fresh value, not an object another delivery can have mutated
     from . import lockset
     lockset.lock_discipline(chk, "C02", ["operations"])   # a re-invocation (REPLAY status) must not raise what the first run cannot: track_replay iterates the map the checkpoint thread updates
